@@ -55,7 +55,7 @@ def raw_dump(conn, backend="sqlite"):
         rows = {}
         for r in conn.execute("SELECT rowid, id, name, type, client, hostname, created, datastr FROM buckets"):
             rows[r[0]] = r[1]
-            out[r[1]] = {"meta": [r[2], r[3], r[4], r[5], r[6], canon_data(json.loads(r[7] or "{}"))], "events": []}
+            out[r[1]] = {"meta": [r[2], r[3], r[4], r[5], storelib.created_us(r[6]), canon_data(json.loads(r[7] or "{}"))], "events": []}
         for r in conn.execute("SELECT id, bucketrow, starttime, endtime, datastr FROM events ORDER BY id"):
             b = rows.get(r[1], "?orphan")
             out.setdefault(b, {"meta": None, "events": []})["events"].append(
